@@ -70,10 +70,61 @@ def run(chk, tier):
                           "the verdict changes from %s to %s when declarations are %s: %r" % (base[i], v, kind, text[:160]), payload)
     chk.cov["evaluations"] += len(cases)
     chk.cov["distinct_nontrivial"] += nontrivial
+    composites(chk, tier, rng)
     chk.notes["programs"] = {"members": len(members), "compiled_variants": len(cases)}
     if members:
         k = len(members) // 3
         chk.sample({"program_family": [members[k]["pos"], members[k]["shape"], members[k]["ind"]], "spec_verdict": members[k]["ok"], "spec_phase": members[k]["phase"]})
+
+
+def composites(chk, tier, rng):
+    """random composite programs: Kinds.tla in oracle mode gives the verdict; permutations and renamings must not change the real one"""
+    import gen
+    import oracle
+    import render
+    ps = gen.programs(common.seed() * 1000 + 7, 500 if tier == "quick" else 6000, p_bad=0.02)
+    rps = [render.render_program(p, style=i % 4) for i, p in enumerate(ps)]
+    oracle.crosscheck(ps, rps)
+    ks, rs = oracle.kinds(ps, chunk=500)
+    for r in rs:
+        chk.add_tlc(r)
+    cases, meta = [], []
+    for i, (p, rp) in enumerate(zip(ps, rps)):
+        cases.append({"main": rp["main"], "files": rp["files"], "want": {}})
+        meta.append((i, "original"))
+        for q in progs.permutations_of(p, limit=3, rng=rng)[:2]:
+            cases.append(progs.harness_case(q, style=0)[0])
+            meta.append((i, "permuted"))
+        cases.append(progs.harness_case(progs.rename_consistently(p), style=0)[0])
+        meta.append((i, "renamed"))
+    obs = run_oalv_parallel("compile", cases, jobs=8)
+    base = {}
+    agree = 0
+    for (i, kind), hc, o in zip(meta, cases, obs):
+        if o.get("outcome") == "skipped" or ks[i] is None:
+            continue
+        v = verdict(o)
+        k = ks[i]
+        text = hc["files"][hc["main"]]
+        payload = {"files": hc["files"], "family": ["composite", str(i), ""], "variant": kind, "spec": {"ok": k["ok"], "cls": k["cls"], "phase": k["phase"]}, "real": v}
+        if v in ("ABORT", "HANG"):
+            chk.violation("C07|program|%s" % v.lower(), "compilation does not terminate normally on %r" % text[:140], payload)
+            continue
+        if kind == "original":
+            base[i] = v
+            want = "ACCEPTED" if k["ok"] else "REJECTED:" + k["cls"]
+            if v != want:
+                chk.violation("C07|program|verdict|spec=%s real=%s" % (want, v),
+                              "the real verdict %s differs from solvability of the kind constraints (%s, phase %s) on %r" % (v, want, k["phase"], text[:200]), payload)
+            else:
+                agree += 1
+                chk.cov["traces_validated_against_impl"] += 1
+        elif i in base and v != base[i]:
+            chk.violation("C07|program|%s-dependent" % ("order" if kind == "permuted" else "name"),
+                          "the verdict changes from %s to %s when declarations are %s: %r" % (base[i], v, kind, text[:200]), payload)
+    chk.cov["evaluations"] += len(cases)
+    chk.cov["distinct_nontrivial"] += len(ps)
+    chk.notes["composite_programs"] = {"generated": len(ps), "verdict_equal_to_Kinds.tla": agree, "rejected_by_both": sum(1 for k in ks if k and not k["ok"]), "compiled_variants": len(cases)}
 
 
 def replay(case):
